@@ -140,13 +140,14 @@ def pool_value(rng: random.Random, ktype: str, label: str) -> object:
 
 class Gen:
     def __init__(self, rng: random.Random, domain: str = "canonical", unknown_tags: bool = False,
-                 max_items: int = 4, big_prob: float = 0.01) -> None:
+                 max_items: int = 4, big_prob: float = 0.01, long_arrays: bool = True) -> None:
         assert domain in ("canonical", "wire")
         self.rng = rng
         self.domain = domain
         self.unknown_tags = unknown_tags
         self.max_items = max_items
         self.big_prob = big_prob
+        self.long_arrays = long_arrays  # include the 16383-item cell of primitive arrays
         self._lean = 0  # > 0 while generating the items of a long array: nested arrays stay short, payloads small
         self.cells_hit: set[tuple[str, str, str]] = set()
         self.stats = {"unknown_tags": 0, "explicit_defaults": 0, "nondefault_tags": 0, "unknown_by_depth": {}}
@@ -154,7 +155,7 @@ class Gen:
     # ----- cells ------------------------------------------------------------------
     def cells(self, fs: FieldSpec) -> list[str]:
         if fs.array:
-            out = ["empty", "one", "many"] + list(ARRAY_BOUNDARY_CELLS) + (["n16383"] if fs.kind == "prim" else []) + (["null"] if fs.nullable else [])
+            out = ["empty", "one", "many"] + list(ARRAY_BOUNDARY_CELLS) + (["n16383"] if fs.kind == "prim" and self.long_arrays else []) + (["null"] if fs.nullable else [])
         elif fs.kind == "struct":
             out = ["value"] + (["null"] if fs.nullable else [])
         else:
